@@ -34,29 +34,14 @@ def install(E):
     E.opaque_eq['pk'] = lambda e, x, y: x.val == y.val
     E.opaque_eq['sc'] = lambda e, x, y: x.val == y.val
 
+    invs = {}
     def inj(e, fname, term, arg):
-        """pairwise injectivity instances for an uninterpreted function (stated assumption: no collisions)"""
-        lst = e.P.g.setdefault('inj_' + fname, [])
-        for (t2, a2) in lst:
-            if a2.eq(arg): continue
-            e.P.solver.add(z3.Implies(t2 == term, a2 == arg))
-            # equal concatenations of parts with pairwise equal known lengths have equal parts
-            if z3.is_app(arg) and arg.sort() == Str:
-                p1, p2 = flatten(e, arg), flatten(e, a2)
-                if p1 and p2 and len(p1) == len(p2) and len(p1) > 1 and all(x[1] == y[1] for x, y in zip(p1, p2)):
-                    e.P.solver.add(z3.Implies(a2 == arg, z3.And([x[0] == y[0] for x, y in zip(p1, p2)])))
-        lst.append((term, arg))
-    def flatten(e, t):
-        out = []
-        stack = [t]
-        while stack:
-            x = stack.pop()
-            if is_app_of(x, 'sconcat'):
-                stack.append(x.arg(1)); stack.append(x.arg(0)); continue
-            k = e.known_len(x)
-            if k is None: return None
-            out.append((x, k))
-        return out
+        """injectivity of an uninterpreted function (stated assumption: no collisions), encoded with an inverse function:
+        inv(f(x)) = x for every application that occurs - linear in the number of terms, injectivity follows by congruence"""
+        key = (fname, term.sort().name(), arg.sort().name())
+        f = invs.get(key)
+        if f is None: f = invs[key] = z3.Function('inv_%s_%s' % (fname, len(invs)), term.sort(), arg.sort())
+        e.ax(('inj', fname, term.get_id()), f(term) == arg)
     E.inj = inj
 
     # group operations: ring arithmetic over Z ('alg', needed for the BDHKE/DLEQ identities of C10) or
@@ -64,16 +49,15 @@ def install(E):
     # only "same key, same point" reasoning is needed)
     pmul_f = z3.Function('pmul', IntS, IntS, IntS)
     padd_f = z3.Function('padd', IntS, IntS, IntS)
+    pdivk_f = z3.Function('pdivk', IntS, IntS, IntS)
+    pdivp_f = z3.Function('pdivp', IntS, IntS, IntS)
     def pmul(e, k, P):
         if getattr(e, 'crypto_mode', 'alg') == 'alg': return k * P
         k, P = z3.simplify(k), z3.simplify(P)
         t = pmul_f(k, P)
-        lst = e.P.g.setdefault('pmuls', [])
-        if not any(t.eq(x[0]) for x in lst):
-            e.P.solver.add(t != 0)
-            for (t2, k2, P2) in lst:
-                e.P.solver.add(z3.Implies(t == t2, (k == k2) == (P == P2)))
-            lst.append((t, k, P))
+        # cancellation (equal products: equal scalars iff equal points) through two inverse functions - linear in the
+        # number of products, the pairwise instances follow by congruence
+        e.ax(('pmul', t.get_id()), t != 0, pdivk_f(t, P) == k, pdivp_f(t, k) == P)
         return t
     def padd(e, a, b):
         if getattr(e, 'crypto_mode', 'alg') == 'alg': return a + b
@@ -252,11 +236,7 @@ def install(E):
         ix = z3.BitVecVal(idx, 32) if isinstance(idx, int) else idx
         t = hd_derive(k, ix)
         # stated assumption: BIP-32 derivation has no collisions (distinct parent or index => distinct child, distinct keys)
-        lst = e.P.g.setdefault('hdder', [])
-        if not any(t.eq(x[0]) for x in lst):
-            for (t2, k2, i2) in lst:
-                e.P.solver.add(z3.Implies(t == t2, z3.And(k == k2, ix == i2)), z3.Implies(hd_priv(t) == hd_priv(t2), t == t2))
-            lst.append((t, k, ix))
+        inj(e, 'hd_parent', t, k); inj(e, 'hd_index', t, ix); inj(e, 'hd_privkey', hd_priv(t), t)
         return (mkx(t), None)
     I['(*%sExtendedKey).Derive' % HD] = derive
     I['(*%sExtendedKey).ECPrivKey' % HD] = lambda e, a: (mkpriv(hd_priv(e.peek(a[0]).val)), None)
